@@ -18,6 +18,9 @@ func genC01(r *simrt.Rand, tier string, idx int) *hx.Program {
 	p := &hx.Program{P: map[string]int64{}}
 	p.P["seg"] = segChoices[r.Intn(len(segChoices))]
 	p.P["sticky"] = []int64{0, 50, 90, 98}[r.Intn(4)]
+	p.P["timeskip"] = []int64{0, 0, 5, 40}[r.Intn(4)] // per mille of the scheduling steps at which time passes although tasks are runnable
+	p.P["skipmax_ms"] = []int64{50, 2000, 30000}[r.Intn(3)]
+	p.P["cleaner_s"] = []int64{1, 5, 300}[r.Intn(3)] // the cleaner's tick also rolls the active segment by age
 	p.P["segage_s"] = []int64{0, 0, 10}[r.Intn(3)]
 	n := 4 + r.Intn(36)
 	if tier == "thorough" {
@@ -242,7 +245,7 @@ func execC01(t *testing.T, prog *hx.Program, dec *simrt.Decider, verbose bool) *
 	oc := runH1(t, prog, dec, verbose, func(h *h1) {
 		c = &c01{h1: h}
 		seg := prog.Param("seg", 100)
-		h.opts = Options{Path: h.dir, MaxSegmentBytes: seg, MaxSegmentAge: time.Duration(prog.Param("segage_s", 0)) * time.Second}
+		h.opts = Options{Path: h.dir, MaxSegmentBytes: seg, MaxSegmentAge: time.Duration(prog.Param("segage_s", 0)) * time.Second, CleanerInterval: time.Duration(prog.Param("cleaner_s", 300)) * time.Second}
 		if _, err := h.open(); err != nil {
 			h.oc.Trouble = "open: " + err.Error()
 			return
